@@ -27,75 +27,20 @@ constexpr CAmount MIN_OUT = 20000;
 
 const OutputType TYPES[] = {OutputType::BECH32, OutputType::LEGACY, OutputType::P2SH_SEGWIT, OutputType::BECH32M};
 
-/** chain view at `tip` (model replay) with the node mempool applied on top */
+/** chain view of the last comparison with the node mempool applied on top */
 struct View {
-    RefUtxo utxo;              //!< mempool-created coins have height -1
-    std::set<Txid> mempool;
+    RefUtxo utxo; //!< mempool-created coins have height -1
 };
 
-View MakeView(WalletSim& ws)
+View MakeView(const WsLedger& L)
 {
-    View v;
-    RefReplay r = ws.sim.ledger.Replay(ws.sim.TipHash());
-    assert(r.ok);
-    v.utxo = std::move(r.utxo);
-    std::vector<CTransactionRef> pending = ws.MempoolTxs();
-    for (auto& tx : pending) v.mempool.insert(tx->GetHash());
-    // apply in dependency order
-    bool progress = true;
-    while (!pending.empty() && progress) {
-        progress = false;
-        for (size_t i = 0; i < pending.size();) {
-            const auto& tx = pending[i];
-            bool have = true;
-            for (auto& in : tx->vin) if (!v.utxo.count(in.prevout)) { have = false; break; }
-            if (!have) { ++i; continue; }
-            for (auto& in : tx->vin) v.utxo.erase(in.prevout);
-            for (uint32_t o = 0; o < tx->vout.size(); ++o) v.utxo[COutPoint(tx->GetHash(), o)] = RefCoin{tx->vout[o].nValue, tx->vout[o].scriptPubKey, -1, false};
-            pending.erase(pending.begin() + i);
-            progress = true;
-        }
-    }
-    return v;
-}
-
-/** From `candidates` (any order) pick, in dependency order, the transactions that are valid on top of `utxo` at `height`; returns fees. */
-std::pair<std::vector<CTransactionRef>, CAmount> SelectValid(RefUtxo utxo, int height, std::vector<CTransactionRef> candidates)
-{
-    std::vector<CTransactionRef> out;
-    CAmount fees = 0;
-    std::set<Txid> taken;
-    bool progress = true;
-    while (progress) {
-        progress = false;
-        for (auto& tx : candidates) {
-            if (taken.count(tx->GetHash())) continue;
-            bool ok = true;
-            CAmount in = 0, outv = 0;
-            std::set<COutPoint> seen;
-            for (auto& i : tx->vin) {
-                auto it = utxo.find(i.prevout);
-                if (it == utxo.end() || !seen.insert(i.prevout).second || (it->second.coinbase && height - it->second.height < 100)) { ok = false; break; }
-                in += it->second.value;
-            }
-            if (!ok) continue;
-            for (auto& o : tx->vout) outv += o.nValue;
-            if (in < outv) continue;
-            for (auto& i : tx->vin) utxo.erase(i.prevout);
-            for (uint32_t o = 0; o < tx->vout.size(); ++o) utxo[COutPoint(tx->GetHash(), o)] = RefCoin{tx->vout[o].nValue, tx->vout[o].scriptPubKey, height, false};
-            fees += in - outv;
-            out.push_back(tx);
-            taken.insert(tx->GetHash());
-            progress = true;
-        }
-    }
-    return {out, fees};
+    return View{WsUtxoWithMempool(L)};
 }
 
 } // namespace
 
 VERIF_TARGET(c44_balances, nullptr, 96, 1100,
-             "histories (<=28 ops) on a regtest node whose base chain pays three coinbases (100/99/98 confirmations) to a descriptor wallet (4 output types); ops: "
+             "histories (<=24 ops) on a regtest node whose base chain pays three coinbases (100/99/98 confirmations) to a descriptor wallet (4 output types); ops: "
              "receive from a foreign coin (1-2 wallet outputs), wallet spend with change (all inputs ours, also of unconfirmed coins), mixed-input spend, "
              "wallet-created send (CreateTransaction+Commit), RBF replacement, mine a block from a subset of the mempool (optionally coinbase to the wallet), "
              "mine a block confirming a double spend of a mempool transaction, overtake the tip from 1-3 blocks back with a branch that re-mines / drops / "
@@ -134,14 +79,16 @@ VERIF_TARGET(c44_balances, nullptr, 96, 1100,
 
     bool f_reorg_wallet = false, f_dead = false, f_maturity = false, f_untrusted = false, f_trusted_pending = false, f_immature = false;
     int reorgs = 0, maxdepth = 0, checks = 0, deadmax = 0;
+    WsLedger last; // ledger at the last comparison (the node does not change between a comparison and the next op)
     auto checkpoint = [&](const char* where) {
         auto fl = ws.FloatingTxs();
         int dead_held = 0;
         { LOCK(ws.w->cs_wallet); for (auto& id : fl.dead) if (ws.w->GetWalletTx(id) && !ws.Tracked().at(id)->IsCoinBase()) dead_held++; }
         if (dead_held) { f_dead = true; deadmax = std::max(deadmax, dead_held); }
-        int ab = ws.AbandonFloating();
+        int ab = ws.AbandonFloating(fl);
         if (ab) st.cls("abandoned-floating-tx");
-        WsLedger L = ws.Ledger();
+        last = ws.Ledger();
+        const WsLedger& L = last;
         VCHECK(L.ok, "c44.harness", "ledger replay failed", L.why);
         std::string diff = ws.CompareWithLedger(L);
         st.steps++;
@@ -205,10 +152,11 @@ VERIF_TARGET(c44_balances, nullptr, 96, 1100,
     };
     /** build + deliver one block on `parent` from candidates; returns the block hash (null if nothing was built) */
     auto mine_on = [&](const uint256& parent, const std::vector<CTransactionRef>& candidates, bool pay_wallet, uint32_t nonce) -> uint256 {
-        RefReplay pr = sim.ledger.Replay(parent);
-        VCHECK(pr.ok, "c44.harness", "parent replay failed", pr.why);
+        RefUtxo base;
+        if (last.ok && last.tip == parent && !last.chain_utxo.empty()) base = last.chain_utxo;
+        else { RefReplay pr = sim.ledger.Replay(parent); VCHECK(pr.ok, "c44.harness", "parent replay failed", pr.why); base = std::move(pr.utxo); }
         int height = sim.ledger.At(parent).height + 1;
-        auto [txs, fees] = SelectValid(pr.utxo, height, candidates);
+        auto [txs, fees] = WsSelectValid(base, height, candidates);
         BlockSpec spec;
         spec.prev = parent;
         spec.txs = txs;
@@ -247,10 +195,10 @@ VERIF_TARGET(c44_balances, nullptr, 96, 1100,
     };
 
     checkpoint("start");
-    unsigned nops = s.range<unsigned>(3, 28);
+    unsigned nops = s.range<unsigned>(3, 24);
     for (unsigned op = 0; op < nops && !s.exhausted(); ++op) {
         unsigned kind = s.range<unsigned>(0, 11);
-        View v = MakeView(ws);
+        View v = MakeView(last);
         const int next_height = sim.TipHeight() + 1;
         st.mix(uint64_t(kind));
         if (kind == 0 || kind == 1) {
@@ -303,9 +251,8 @@ VERIF_TARGET(c44_balances, nullptr, 96, 1100,
             cc.m_feerate = CFeeRate{s.pick<CAmount>({20000, 5000, 100000})};
             CTxDestination dest;
             ExtractDestination(P2WSH_OP_TRUE, dest);
-            WsLedger L = ws.Ledger();
-            if (L.trusted < 10 * MIN_OUT) continue;
-            CAmount amount = std::max<CAmount>(MIN_OUT, L.trusted / s.range<int>(2, 50));
+            if (last.trusted < 10 * MIN_OUT) continue;
+            CAmount amount = std::max<CAmount>(MIN_OUT, last.trusted / s.range<int>(2, 50));
             std::vector<wallet::CRecipient> rcp{{dest, amount, s.chance(60)}};
             auto res = wallet::CreateTransaction(*ws.w, rcp, std::nullopt, cc, /*sign=*/true);
             if (!res) { st.cls("createtx-failed"); st.note("createtx failed: ", util::ErrorString(res).original); continue; }
@@ -347,8 +294,7 @@ VERIF_TARGET(c44_balances, nullptr, 96, 1100,
             for (auto& tx : ws.MempoolTxs()) if (wallet_related.count(tx->GetHash())) cands.push_back(tx);
             if (cands.empty()) continue;
             CTransactionRef t = cands[s.index(cands.size())];
-            RefReplay r = sim.ledger.Replay(sim.TipHash());
-            CTransactionRef ds = double_spend_of(t, r.utxo);
+            CTransactionRef ds = double_spend_of(t, last.chain_utxo);
             if (!ds) continue;
             std::vector<CTransactionRef> blocktxs{ds};
             for (auto& tx : ws.MempoolTxs()) if (s.chance(128)) blocktxs.push_back(tx); // those still valid next to `ds` get in
@@ -389,11 +335,10 @@ VERIF_TARGET(c44_balances, nullptr, 96, 1100,
             // empty blocks: coinbase maturation (base coinbases cross 99 -> 100 -> 101 confirmations within the first three)
             int nb = s.range<int>(1, 3);
             for (int b = 0; b < nb; ++b) {
-                WsLedger before = ws.Ledger();
+                const CAmount immature_before = last.immature;
                 mine_on(sim.TipHash(), {}, false, 2000 + op * 8 + b);
                 checkpoint("after-empty-block");
-                WsLedger after = ws.Ledger();
-                if (after.immature < before.immature) { f_maturity = true; st.cls("coinbase-matured"); }
+                if (last.immature < immature_before) { f_maturity = true; st.cls("coinbase-matured"); }
             }
             st.cls("empty-blocks");
             continue;
